@@ -364,6 +364,23 @@ TRUSTED_BASE = [
     "`type: integer` is the one meaning the current schema does not exercise); any keyword outside this set, a non-local $ref, a non-string enum, "
     "a schema-valued additionalProperties are REFUSED by the translator and fail the named obligation C06_schema; documents holding lone surrogates "
     "or non-string keys are outside the value universe and not compared",
+    "harness/pytolean_http.py and lean/Rbacx/Model/PyHttp.lean (C10 / C17, HTTPPolicySource.load / etag / the state-creating statements of __init__): "
+    "trusted to render the Python subset of store/http_store.py faithfully — STATE AND EXCEPTION PASSING (the fields `_etag`, `_policy_cache` are a "
+    "record passed in and out, also when an exception escapes: what was assigned before the raise stays assigned; `if` / `try` statements joined "
+    "with what follows over the locals they assign that are live afterwards — a backward liveness analysis; a handler starts from the fields as "
+    "the `try` body left them, and a local the body assigns and the handler does not re-assign must not be live afterwards); exception objects are "
+    "class names caught through `Rbacx.PyX.ancestors` (an unknown class is a direct subclass of Exception; KeyboardInterrupt is not); the RESPONSE "
+    "OBJECT is a record of outcomes (`hasattr` / `getattr(r, k, None)` / `isinstance(getattr(r, 'headers', None), dict)` total, `r.headers.get(K)`, "
+    "`r.raise_for_status()`, `r.json()` per CALL SITE in source order — each site runs at most once per load —, `<bytes attribute>.decode('utf-8')` "
+    "outcomes; a local bound by `x = getattr(r, k, None)` and not rebound is a handle of that attribute); `requests.get`, `parse_policy_text`, "
+    "`validate_policy`, `import requests` are outcome parameters, `_detect_format` a TOTAL function parameter (its own translation is C17_translated's "
+    "business); configuration fields (`url`, `headers`, `validate_schema`) are parameters read as JSON-shaped values (`dict(self.headers)` of a dict); "
+    "`.lower()` / `in` / `==` / truthiness / `isinstance` on the values that occur (header values str / None / int …) never raise; SILENT: the "
+    "`logging` call of the fast path's handler and `from rbacx.dsl.validate import validate_policy` (taken to be total: validate.py imports jsonschema "
+    "inside the function). Validated against CPython on every C10 run (Run/SrcEvalHttp.lean vs the real methods over stub `requests` modules and "
+    "response objects of many shapes, sequences of calls on one source object; harness/http_tr.py). The equality with the model (`http_load_eq`) is "
+    "stated under the refinement `Answers` / `StSim` / `Delivers` of Proofs/HttpTranslated.lean and WITHOUT schema validation (the model has no "
+    "validator); what the faked server of the C10 differential run answers is the harness's, not the translation's, business",
 ]
 
 
